@@ -189,6 +189,15 @@ def derive_meta(op: ir.Op, name, argvals, params, v) -> Val:
     scale = max(scale, _finite_max(v))
     if not ins_cmp:
         return Val(v, exact=False, comparable=False, scale=scale)
+    if cls in ("reassoc", "reassoc-prod", "mean", "var", "recon", "svdvals") and kind(rdt) in "fc":
+        # reassociating / contracting float operations on non-finite data: inf-inf, 0*inf and complex inf arithmetic
+        # depend on the order of evaluation, so neither exact nor tolerant comparison is sound
+        for a in argvals:
+            x = np.asarray(a.v)
+            if kind(x.dtype) in "fc" and not np.all(np.isfinite(x)):
+                return Val(v, exact=False, comparable=False, scale=scale)
+        if not np.all(np.isfinite(np.asarray(v))):
+            return Val(v, exact=False, comparable=False, scale=scale)  # overflow inside the operation
     if cls == "shape-only":
         return Val(v, exact=False, comparable=False, scale=scale)
     structural = bool(set(op.tags) & STRUCTURAL_TAGS) and cls == "exact"
